@@ -95,6 +95,9 @@ def generate(tier, seed, work, stats):
         cases.append(dict(kind="cfg", prods=c["prods"], vpool="clash" if i % 3 == 2 else "upper", tpool="ab", family=c["family"]))
         if i % 11 == 5:     # a grammar object without start symbol: the PDA accepts nothing
             cases.append(dict(kind="cfg", prods=c["prods"], vpool="upper", tpool="ab", family=c["family"] + "-no-start-symbol", nostart=True))
+        if i % 5 == 2:      # variables spelled like the stack symbols to_pda makes for terminals; integer terminals
+            cases.append(dict(kind="cfg", prods=c["prods"], vpool="termlike", tpool="ab", family=c["family"] + "-termlike-names"))
+            cases.append(dict(kind="cfg", prods=c["prods"], vpool="upper", tpool="int", family=c["family"] + "-integer-terminals"))
         if i % 4 == 1:      # integer variables next to terminals that are the same digits as strings (PDA.to_cfg numbers its variables)
             cases.append(dict(kind="cfg", prods=c["prods"], vpool="int0", tpool="digits", family=c["family"] + "-digit-names"))
     for c in cases:
